@@ -51,4 +51,15 @@ META = {'C01': {'text': 'Model-based stateful property testing: random histories
          'design_ref': 'DESIGN.md §6 C12',
          'note': 'Trusts the reference model. Two creating operations for one key in one transaction are known finding f17 and excluded by '
                  'construction (counted).',
-         'technique': 'model-based stateful property testing (rapid) with reference-map oracle'}}
+         'technique': 'model-based stateful property testing (rapid) with reference-map oracle'},
+ 'C16': {'text': 'Model-based stateful property testing of Ascend over generated histories with forced duplicate values and generated filters; '
+                 'completeness, uniqueness, order and values are all compared with the reference model. Exploration.',
+         'design_ref': 'DESIGN.md §6 C16',
+         'note': 'Trusts the reference model; arbitrary filter chains are exercised by C04, here five filter shapes are combined with Ascend.',
+         'technique': 'model-based stateful property testing (rapid) with reference-model oracle'},
+ 'C19': {'text': 'Model-based stateful property testing: trigger callbacks are recorded and compared, per transaction, with the event list the '
+                 'reference model derives (post-merge values, issue order per row, one call per delete, none for rollbacks or after drop). '
+                 'Exploration.',
+         'design_ref': 'DESIGN.md §6 C19',
+         'note': "Trusts the reference model's merge semantics; values are decoded from the callback's Reader with the column's own width.",
+         'technique': 'model-based stateful property testing (rapid) with reference-model oracle over callback histories'}}
